@@ -38,10 +38,10 @@ def fixed_flow_origin(M):
     return FixedFlowOrigin
 
 
-def one(M, rec, rng, g, desc, pars, st, ops=None, regime=None):
+def one(M, rec, rng, g, desc, pars, st, ops=None, regime=None, allow_custom=True):
     cand = CC.candidate_params(desc, pars)
     custom = {}
-    if rng.random() < 0.3 and not any(o.get("user") or o.get("user_cap_flow") is not None for o in desc["origins"]):
+    if allow_custom and rng.random() < 0.3 and not any(o.get("user") or o.get("user_cap_flow") is not None for o in desc["origins"]):
         cls = fixed_flow_origin(M)
         for o in desc["origins"]:
             if o["kind"] == "ideal":
@@ -188,7 +188,7 @@ def long_corridor_with_a_late_feeder(M, rec, rng, g, st):
                         {"id": "O1", "name": "O1", "node": "f0", "kind": "ideal", "C": None, "eq": None}],
             "dests": [{"id": "D0", "name": "D0", "node": f"n{n_links}", "kind": "free"}]}
     rec.count("long_corridors_with_small_integer_segment_counts")
-    one(M, rec, rng, g, desc, g.pars(), st, ops=D.default_ops(desc), regime="interior")  # (built in the order of the table: the feeder comes last)
+    one(M, rec, rng, g, desc, g.pars(), st, ops=D.default_ops(desc), regime="interior", allow_custom=False)  # (built in the order of the table: the feeder comes last)
 
 
 def run(M, rec, tier, seed, k, n):
